@@ -52,7 +52,8 @@ def run_auto(case, evaluator=None):
     us = {v: Poly.var("u%d" % v) for v in case["V"] if v != case["root"]}
     try:
         with watchdog(60):
-            val = ae.automated_equation(motif_graph(case["E"], case.get("name", "motif"), us), Poly.var("p"), case["root"])
+            # the focal vertex is given as an EQUAL id, not as the graph's own node object (ids above 256 are not interned)
+            val = ae.automated_equation(motif_graph(case["E"], case.get("name", "motif"), us), Poly.var("p"), int(str(case["root"])))
         tr["terms"], tr["malformed"] = poly_terms(val)
     except Timeout:
         raise
@@ -137,14 +138,14 @@ def run_countmod(n, k):
 def run_ncg(case):
     import gcmpy
     import networkx as nx
-    G = nx.Graph()
+    G = nx.Graph(name=case.get("gname", ""))           # gcmpy names its motif graphs ("4-clique", "<focal>-<id>"); a name is not an identity
     G.add_nodes_from(case["V"])
     G.add_edges_from([tuple(e) for e in case["E"]])
     A = list(case["A"])
     focal = case["focal"]
     tr = {"kind": "ncg", "case": case, "E": [list(e) for e in case["E"]], "A": A, "k": case["k"], "got": -1, "raised": ""}
     try:
-        tr["got"] = int(gcmpy.number_of_connected_graphs(G, [v for v in A if v != focal], focal, case["k"]))
+        tr["got"] = int(gcmpy.number_of_connected_graphs(G, [v for v in A if v != focal], int(str(focal)), case["k"]))
     except Exception as ex:
         tr["raised"] = "%s: %s" % (type(ex).__name__, str(ex)[:70])
     return tr
@@ -156,6 +157,14 @@ def run_perc(case):
     import networkx as nx
     G = nx.Graph()
     G.add_nodes_from(case["V"])
+    if case.get("pre_E"):
+        # history: the SAME graph object was percolated before with other edges (same number of them), then edited in place
+        G.add_edges_from([tuple(e) for e in case["pre_E"]])
+        try:
+            Oracle().run_seeded(5, lambda: gcmpy.bond_percolate(G, 0.5))
+        except Exception:
+            pass
+        G.remove_edges_from(list(G.edges()))
     G.add_edges_from([tuple(e) for e in case["E"]])
     for i, (x, y) in enumerate(G.edges()):
         G.edges[x, y]["topology"] = "t%d" % (i % 2)       # annotated as gcmpy's own networks are
